@@ -40,7 +40,8 @@ def budget(tier):
 KINDS = ['fold_add', 'fold_max', 'fold_cat', 'fold_iadd_list', 'fold_probe_init', 'sum', 'sum_float',
          'sum_probe_init', 'flatten', 'flatten_lazy', 'flatten_tuple', 'flatten_str', 'flatten_probe_init',
          'merge', 'merge_odict', 'merge_probe_init', 'flatten_fn', 'merge_fn', 'flatten_levels2',
-         'flatten_levels2_int', 'flatten_levels2_tuple', 'flatten_levels0', 'flatten_levels3']
+         'flatten_levels2_int', 'flatten_levels2_tuple', 'flatten_levels0', 'flatten_levels3',
+         'merge_factory_odict']
 
 ITEM_KIND = {
     'fold_add': 'int', 'fold_max': 'int', 'fold_cat': 'any', 'fold_iadd_list': 'list', 'fold_probe_init': 'list',
@@ -48,7 +49,7 @@ ITEM_KIND = {
     'flatten_tuple': 'tuple', 'flatten_str': 'str', 'flatten_probe_init': 'list', 'merge': 'dict',
     'merge_odict': 'dict', 'merge_probe_init': 'dict', 'flatten_fn': 'list', 'merge_fn': 'dict',
     'flatten_levels2': 'list2', 'flatten_levels2_int': 'intlist', 'flatten_levels2_tuple': 'tuple2',
-    'flatten_levels0': 'list', 'flatten_levels3': 'list3',
+    'flatten_levels0': 'list', 'flatten_levels3': 'list3', 'merge_factory_odict': 'dict',
 }
 
 
@@ -72,6 +73,7 @@ def spec_recipe(kind, sub):
         'merge': ['Merge', s],
         'merge_odict': ['Merge', s, ['fn', 'OrderedDict']],
         'merge_probe_init': ['Merge', s, P('dict')],
+        'merge_factory_odict': ['Merge', s, P('OrderedDict')],     # init is a factory, not a type
     }.get(kind)
 
 
@@ -189,7 +191,7 @@ def reference(kind, items):
         for x in items:
             d.update(x)
         return d
-    if kind == 'merge_odict':
+    if kind in ('merge_odict', 'merge_factory_odict'):
         d = OrderedDict()
         for x in items:
             d.update(x)
@@ -305,7 +307,7 @@ def run_case(case, gen_rng=None):
     W = World(case, faults=faults, gen_rng=gen_rng if mode == 'interleave' else None)
     G = W.G
     prev = []
-    uses_probe_init = kind.endswith('probe_init')
+    uses_probe_init = kind.endswith('probe_init') or kind == 'merge_factory_odict'
     try:
         if mode in ('repeat', 'fault', 'lazy'):
             order = list(range(len(case['sources'])))
